@@ -85,4 +85,12 @@ CLAIMS = {
                 "set_params/residuals/params are the same definitions; into_sequential preserves every field (c11_into_sequential). Assumption: derivative results during one Jacobian evaluation do not depend on call order (DerivDet). Tie: parallel vs sequential twins under pools of 1..16 threads.",
         "note": "Trusted: as C01; rayon schedules are abstracted (any order), sampled on the code by pool size. Fits of parallel problems are compared in the fit stream.",
     },
+    "C04": {
+        "text": "Kernel-checked for every behaviour of the numerical oracles: fit = Ok exactly for ResidualsZero/Orthogonal/Converged and both branches carry the optimizer's final problem and report (c04_ok_iff, c04_successful_iff); "
+                "a trial is accepted only if it strictly decreases the residual norm, hence the objective (c04_accept_decreases, c04_objective_decreases, c04_predicted_nonneg, on the transcribed acceptance arithmetic of lm.rs); "
+                "another trial is only started below the evaluation budget (c04_tests_budget); fit_with_statistics = Err(fit result) iff fit failed / coefficients absent / statistics erred (c04_fws). "
+                "The whole control flow of LevenbergMarquardt::minimize is transcribed (Core/LM.lean); the global invariants (monotone objective over the whole run, coherence of the returned state, total budget) are enforced per run by the trace acceptor and are being lifted to theorems over LM.run. "
+                "Tie: fit stream with model-call traces.",
+        "note": "Trusted: Lean kernel; the transcription of lm.rs control flow as validated by the trace acceptor on every fit; QR/LMPAR numerics are oracles (nothing assumed); floating point modelled not verified.",
+    },
 }
